@@ -1,9 +1,7 @@
-import re
 import string
-import functools
 from typing import Any, Union
 
-from flamapy.core.models.ast import ASTOperation
+from flamapy.core.models.ast import ASTOperation, Node
 from flamapy.core.transformations import ModelToText
 from flamapy.metamodels.fm_metamodel.models import (
     Constraint,
@@ -156,18 +154,33 @@ class UVLWriter(ModelToText):
         return result
 
     @staticmethod
-    def _substitute_operator(str_constraint: str,
-                             operator: ASTOperation,
-                             new_operator: str) -> str:
-        return re.sub(rf"\b{operator.value}\b", new_operator, str_constraint)
-
-    @staticmethod
     def serialize_constraint(ctc: Constraint) -> str:
-        str_constraint = ctc.ast.pretty_str()
-        return functools.reduce(lambda acc, op: UVLWriter._substitute_operator(acc,
-                                                                               op,
-                                                                               UVL_OPERATORS[op]),
-                                ASTOperation, str_constraint)
+        return serialize_node(ctc.ast.root)
+
+
+def serialize_node(node: Node) -> str:
+    """Write an expression of the AST in UVL syntax (names are never touched by the
+    translation of the operators)."""
+    if not node.is_op():
+        return serialize_term(node.data)
+    operator = UVL_OPERATORS[node.data]
+    if node.is_aggregate_op():
+        arguments = [serialize_node(arg) for arg in (node.left, node.right) if arg is not None]
+        return f'{operator}({", ".join(arguments)})'
+    if node.is_unary_op():
+        return f'{operator} {serialize_operand(node.left)}'
+    return f'{serialize_operand(node.left)} {operator} {serialize_operand(node.right)}'
+
+
+def serialize_operand(node: Node) -> str:
+    result = serialize_node(node)
+    return f'({result})' if node.is_binary_op() else result
+
+
+def serialize_term(data: Any) -> str:
+    if isinstance(data, (int, float)) and not isinstance(data, bool):
+        return str(data)
+    return safename(str(data))
 
 
 def safename(name: str) -> str:
